@@ -124,6 +124,8 @@ _extract_memo = {}
 
 def extract_cached(spec):
     key = json.dumps(spec, sort_keys=True)
+    if key not in _extract_memo and spec['function'].startswith('struct:'):
+        _extract_memo[key] = X.extract_plain_struct(spec['file'], spec['function'][7:])
     if key not in _extract_memo:
         cls = X.SamplerExtractor if spec.get('sampler') else X.FunctionExtractor
         fx = cls(spec['file'], spec['function'], spec.get('alias'), spec.get('decl_file'))
